@@ -74,9 +74,11 @@ CLAIMED = {
         'text': 'Deductive proof (Verus) on the verbatim bodies of bip_equal, bip_less_than, bip_less_than_or_equal, bip_greater_than, bip_greater_than_or_equal and get_two_constants, '
                 'with get_constant / get_ground_term proved in unit subst: a success returns the identical substitution (no binding), happens only when both operands resolve - through variable chains of any length - '
                 'to comparable constants, and for integer/integer and atom/atom operands happens exactly when the machine-integer order / String::cmp order says so. '
-                'Float and integer/float arms: exec f64 comparison is unspecified in Verus; they are decided by Kani harnesses in the thorough tier.',
-        'note': "Trusted: String::cmp = uninterpreted total order with Equal<=>same text (T3), derived PartialEq of Ordering (T3), T1, T2, T4, T5. 'At most once' lives in the solver node (not covered).",
-        'technique': 'contract-based deductive verification (Verus) of extracted real code; Kani harnesses for float arms',
+                'Float/float arms: exactly when vstd\'s f64 comparison spec says so (under the axiom that IEEE comparison is a function of its operands). '
+                'Integer/float arms: exactly when the float compares accordingly with i2f(i), the uninterpreted value of the cast `i as f64` (extraction rule R12). '
+                'A bounded enumeration (registered stand-in, not counted as proved) compares all arms with Rust\'s own conversion and comparison.',
+        'note': "Trusted: String::cmp = uninterpreted total order with Equal<=>same text (T3), derived PartialEq of Ordering (T3), f64 comparison functional, `i as f64` is a function of i (T6), T1, T2, T4, T5. 'At most once' lives in the solver node (not covered). Kani through bip_* does not finish (drop glue), not registered.",
+        'technique': 'contract-based deductive verification (Verus) of extracted real code; bounded replay oracle as labelled stand-in',
         'design_ref': 'DESIGN.md 5/C14',
     },
     'C16': {
